@@ -1043,3 +1043,500 @@ class WireTruncation(Bounded):
             return "truncated last value read as %r / remainder %r, available body octets %r" % (
                 got[count - 1], got[count], wire[body:])
         return None
+
+# ----------------------------------------------------------------------------------------------------------------
+# bounded checks: keys
+# ----------------------------------------------------------------------------------------------------------------
+
+PUB_RSA_N = [2 ** 511 + 1, 2 ** 512 + 1, 2 ** 1023 + 1, 2 ** 1024 - 1, 2 ** 1024 + 1, 2 ** 1031 + 1, 2 ** 1032 - 1,
+             2 ** 2047 + 1, 2 ** 2048 - 1, 2 ** 4096 - 1]
+PUB_RSA_E = [3, 5, 127, 129, 255, 257, 65537, 2 ** 31 - 1, 2 ** 31 + 1, 2 ** 32 + 1, 2 ** 63 + 1, 2 ** 64 + 1]
+PUB_ED_A = [b"\x00" * 32, b"\xff" * 32, b"\x01" + b"\x00" * 31, b"\n" * 32, b" " * 32, b"\x00\x00\x00\x20" * 8]
+PUB_DSA_Y = [1, 2, 255, 256, 2 ** 1015, 2 ** 1016 - 1, 2 ** 1016, 2 ** 1023 - 1, 2 ** 1023, DSA_P - 1]
+_PUBS = {}
+
+
+def public_numbers(spec):
+    """numbers of a public-only key named by a hashable spec, or of the public half of a pool key"""
+    if isinstance(spec, str):
+        return numbers(spec)
+    if spec not in _PUBS:
+        if spec[0] == "pub-rsa":
+            _PUBS[spec] = dict(kind="rsa", n=PUB_RSA_N[spec[1]], e=PUB_RSA_E[spec[2]])
+        elif spec[0] == "pub-ed":
+            _PUBS[spec] = dict(kind="ed25519", a=PUB_ED_A[spec[1]])
+        else:
+            _PUBS[spec] = dict(kind="dsa", p=DSA_P, q=DSA_Q, g=DSA_G, y=PUB_DSA_Y[spec[1]])
+    return _PUBS[spec]
+
+
+def public_specs(tier):
+    out = list(QUICK_KEYS if tier == "quick" else ALL_KEYS)
+    out += [("pub-rsa", i, j) for i in range(len(PUB_RSA_N)) for j in range(len(PUB_RSA_E))
+            if tier != "quick" or (i + j) % 3 == 0 or i in (2, 3) or j in (0, 8)]
+    out += [("pub-ed", i) for i in range(len(PUB_ED_A))] + [("pub-dsa", i) for i in range(len(PUB_DSA_Y))]
+    return out
+
+
+def build_public(spec):
+    k = public_numbers(spec)
+    try:
+        return k, make_key(k, False)
+    except Exception:
+        raise Bounded.Skip()     # numbers the crypto library does not take as a key: not a supported key
+
+
+COMMENTS = [None, b"user@host", b"two words  and = more", "unicodé ☃"]
+TRAILERS = [b"", b"\n"]
+
+
+class KeyPublic(Bounded):
+    prop = "C37"
+    title = ("Key.blob() / Key.fromString(blob) / public OpenSSH line / fingerprint() / public() / == against the "
+             "RFC 4253, 5656, 8709 blob assembled from the key numbers")
+    scope = ("keys from fixed numbers: RSA 1023/1024/2048 bit (p>q and p<q, e = 3, 65537, 2^31+1), DSA 1024/160 "
+             "(y with top bit set, y with a leading zero octet, x = 2), ECDSA nistp256/384/521 (ordinary, x or y "
+             "with a leading zero octet, d = 1, d = n-1), Ed25519 (4 seeds); public-only keys from boundary numbers "
+             "(RSA n around 2^511..2^4096 x e around 2^7, 2^8, 2^31, 2^32, 2^63, 2^64; DSA y around 2^8, 2^1016, "
+             "2^1023, p-1; Ed25519 octets of 00, ff, LF, SP, a length prefix).  Per key: the private and public "
+             "object, blob parsed with guessed and explicit type, the public line written by us with 4 comments x 2 "
+             "line endings, the line written by twisted with 4 comments read by our reader, both fingerprint "
+             "formats, and inequality with every other pool key (quick: the next two)")
+    functions = ["Key.blob", "Key.fromString", "Key._fromString_BLOB", "Key._fromString_PUBLIC_OPENSSH",
+                 "Key._guessStringType", "Key.toString", "Key._toPublicOpenSSH", "Key.fingerprint", "Key.public",
+                 "Key.isPublic", "Key.__eq__", "Key.data", "Key.sshType"]
+
+    def cases(self, tier, rng):
+        specs = public_specs(tier)
+        for s in specs:
+            if isinstance(s, str):
+                yield ("identity", s)
+            for how in ("guess", "typed"):
+                yield ("blob", s, how)
+            for c in range(len(COMMENTS)):
+                for t in range(len(TRAILERS)):
+                    yield ("line-in", s, c, t)
+                yield ("line-out", s, c)
+        pool = [s for s in specs if isinstance(s, str)]
+        for i, a in enumerate(pool):
+            others = pool[i + 1:i + 3] if tier == "quick" else pool[i + 1:]
+            for b in others:
+                yield ("distinct", a, b)
+
+    def check(self, case):
+        kind = case[0]
+        if kind == "identity":
+            k = numbers(case[1])
+            priv, pub = make_key(k, True), make_key(k, False)
+            for label, key, private in (("private key", priv, True), ("public key", pub, False),
+                                        ("private.public()", priv.public(), False),
+                                        ("public.public()", pub.public(), False)):
+                what = describe_key(key, k, private)
+                if what:
+                    return "%s: %s" % (label, what)
+            if priv.sshType() != ssh_type(k) or pub.sshType() != ssh_type(k):
+                return "sshType() is %r" % (priv.sshType(),)
+            if priv == pub or not (priv != pub) or pub == priv:
+                return "the private key compares equal to its public half"
+            if priv == object() or not (priv != 5):
+                return "a key compares equal to a non-key"
+            return None
+        if kind == "blob":
+            k, pub = build_public(case[1])
+            blob = ref_blob(k)
+            if pub.blob() != blob:
+                return "blob() = %s..., RFC blob = %s..." % (pub.blob()[:40].hex(), blob[:40].hex())
+            got = Key.fromString(blob) if case[2] == "guess" else Key.fromString(blob, type="blob")
+            what = describe_key(got, k, False)
+            if what:
+                return "fromString(RFC blob): " + what
+            if not (got == pub):
+                return "fromString(blob) != the key"
+            return None
+        if kind == "line-in":
+            k, pub = build_public(case[1])
+            comment = COMMENTS[case[2]]
+            if isinstance(comment, str):
+                comment = comment.encode("utf-8")
+            line = ref_public_line(k, comment) + TRAILERS[case[3]]
+            what = describe_key(Key.fromString(line), k, False)
+            if what:
+                return "fromString(%r...): %s" % (line[:30], what)
+            what = describe_key(Key.fromString(line, type="public_openssh"), k, False)
+            return ("typed fromString: " + what) if what else None
+        if kind == "line-out":
+            k, pub = build_public(case[1])
+            comment = COMMENTS[case[2]]
+            line = pub.toString("openssh") if comment is None else pub.toString("openssh", comment=comment)
+            try:
+                t, blob, c = read_public_line(line)
+            except Exception as e:
+                return "toString('openssh') gave %r...: %r" % (line[:40], e)
+            want = comment.encode("utf-8") if isinstance(comment, str) else comment
+            if t != ssh_type(k) or blob != ref_blob(k) or c != want:
+                return "public line has type %r, comment %r, blob right: %r" % (t, c, blob == ref_blob(k))
+            what = describe_key(Key.fromString(line), k, False)
+            return ("fromString(toString()): " + what) if what else None
+        if kind == "distinct":
+            ka, kb = numbers(case[1]), numbers(case[2])
+            a, b = make_key(ka, True), make_key(kb, True)
+            same_public = ref_blob(ka) == ref_blob(kb)     # the same key with its primes named the other way round
+            if not same_public and (a == b or not (a != b)):
+                return "two different private keys compare equal"
+            if (a.public() == b.public()) != same_public:
+                return "public halves: == says %r, the blobs say %r" % (not same_public, same_public)
+            if (Key.fromString(ref_blob(ka)) == b.public()) != same_public:
+                return "a parsed key equals a different key"
+            if (a.fingerprint() == b.fingerprint()) != same_public:
+                return "fingerprints of different keys coincide"
+            return None
+        return "unknown case"
+
+
+class _MemoKdf:
+    """bcrypt.kdf with 100 rounds takes most of a second; inside a check the same (passphrase, salt, length,
+    rounds) is derived by the writer, by twisted's reader and by our reader.  The function is pure, so the repeated
+    derivations are served from a table for the duration of the check (any difference in an argument is a miss)."""
+
+    def __enter__(self):
+        import bcrypt
+        self.mod, self.real, table = bcrypt, bcrypt.kdf, {}
+
+        def kdf(password, salt, desired_key_bytes, rounds, ignore_few_rounds=False):
+            key = (bytes(password), bytes(salt), desired_key_bytes, rounds)
+            if key not in table:
+                import warnings
+                with warnings.catch_warnings():
+                    warnings.simplefilter("ignore")
+                    table[key] = self.real(password, salt, desired_key_bytes, rounds, ignore_few_rounds)
+            return table[key]
+        bcrypt.kdf = kdf
+        return self
+
+    def __exit__(self, *exc):
+        self.mod.kdf = self.real
+        return False
+
+
+# (what toString / fromString get, the octets a standard reader or writer uses); "ﬁ" is NFKC-normalised to "fi"
+PASSES = {
+    "none": (None, None),
+    "empty": (b"", None),
+    "secret": (b"secret", b"secret"),
+    "long": (b"0123456789" * 8, b"0123456789" * 8),
+    "odd": (b"with space\n\xff\x00x", b"with space\n\xff\x00x"),
+    "str": ("ﬁsh pässwörd", "fish pässwörd".encode("utf-8")),
+}
+V1_COMMENTS = [None, b"", b"user@host", b"a longer comment, with \xc3\xa9 and spaces"]
+
+
+def _must_fail(text, **kw):
+    """None if Key.fromString refuses, else what it returned"""
+    how, got = _call(lambda: Key.fromString(text, **kw))
+    return None if how == "raised" else "fromString(%r) returned %r" % (kw, type(got).__name__)
+
+
+def _either_prime_order(key, k):
+    what = describe_key(key, k, True)
+    if what and k["kind"] == "rsa":
+        swapped = dict(k, p=k["q"], q=k["p"])
+        if describe_key(key, swapped, True) is None:
+            return None
+    return what
+
+
+class KeyPrivate(Bounded):
+    prop = "C37"
+    title = ("private keys through every private format: what twisted writes is read by an independent reader "
+             "(numbers, comment, encryption) and by twisted itself (equal key, same fingerprints); what an independent "
+             "writer produces is read by twisted; wrong or missing passphrases are refused")
+    scope = ("pool keys (see KeyPublic) x {privateBlob, openssh-key-v1, traditional PEM (not Ed25519), default subtype, "
+             "agent v3 and lsh (RSA, DSA)} x passphrase {none, empty, ascii, 80 octets, octets with LF/NUL/ff, "
+             "unicode str needing NFKC} x comment {none, empty, short, long}; our v1 files use aes128/192/256-ctr "
+             "with 2 bcrypt rounds and line widths 64/70, our PEM files AES-128/256-CBC; in the quick tier "
+             "twisted-written encrypted v1 files (100 bcrypt rounds) are limited to one key per type and curve, "
+             "and wrong-passphrase reads of them to the thorough tier")
+    functions = ["Key.toString", "Key.fromString", "Key.privateBlob", "Key._fromString_PRIVATE_BLOB",
+                 "Key._toPrivateOpenSSH_v1", "Key._fromPrivateOpenSSH_v1", "Key._toPrivateOpenSSH_PEM",
+                 "Key._fromPrivateOpenSSH_PEM", "Key._toString_AGENTV3", "Key._fromString_AGENTV3",
+                 "Key._toString_LSH", "Key._fromString_PRIVATE_LSH", "Key._fromString_PUBLIC_LSH",
+                 "Key._guessStringType", "keys._normalizePassphrase"]
+
+    def cases(self, tier, rng):
+        quick = tier == "quick"
+        pool = QUICK_KEYS if quick else ALL_KEYS
+        slow = {"rsa1024", "dsa", "ec256", "ec384", "ec521", "ed25519"}
+        for kid in pool:
+            kind = kid.rstrip("0123456789").split("-")[0].rstrip("0123456789")
+            kind = "ed25519" if kid.startswith("ed25519") else kind
+            yield ("blob-out", kid)
+            yield ("blob-in", kid)
+            # twisted writes
+            for c in range(len(V1_COMMENTS)):
+                for pw in ("none", "empty"):
+                    yield ("v1-out", kid, pw, c)
+            if not quick or kid in slow:
+                yield ("v1-out", kid, "secret", 2)
+            if not quick:
+                for pw in ("long", "odd", "str"):
+                    yield ("v1-out", kid, pw, 0)
+                yield ("v1-out-wrong", kid, "secret")
+            elif kid == "ed25519":
+                yield ("v1-out", kid, "str", 0)
+            elif kid == "ec256":
+                yield ("v1-out", kid, "odd", 3)
+            yield ("default-out", kid, "none")
+            # we write
+            for width in (64, 70):
+                yield ("v1-in", kid, "none", None, 2, width)
+            yield ("v1-in", kid, "empty", None, 0, 70)
+            for i, cipher in enumerate(sorted(V1_CIPHERS)):
+                for pw in (("secret", "long", "odd", "str") if not quick or kid in slow
+                           else (("secret", "odd", "str")[i],)):
+                    yield ("v1-in", kid, pw, cipher, (i + 1) % len(V1_COMMENTS), 70)
+            if kind != "ed25519":
+                for pw in PASSES:
+                    for subtype in ("PEM", None):
+                        if subtype == "PEM" or pw in ("none", "secret"):
+                            yield ("pem-out", kid, pw, subtype)
+                yield ("pem-in", kid, "none", None)
+                for cipher in (b"AES-128-CBC", b"AES-256-CBC"):     # the library has no AES-192-CBC PEM layer
+                    for pw in ("secret", "long", "odd", "str"):
+                        yield ("pem-in", kid, pw, cipher)
+            if kind in ("rsa", "dsa"):
+                for what in ("agent-out", "agent-in", "lsh-private-out", "lsh-private-in", "lsh-public-out",
+                             "lsh-public-in"):
+                    yield (what, kid)
+
+    def check(self, case):
+        with _MemoKdf():
+            return self._check(case)
+
+    def _check(self, case):
+        kind, kid = case[0], case[1]
+        k = numbers(kid)
+        key = make_key(k, True)
+        if kind == "blob-out":
+            got = key.privateBlob()
+            if got != ref_private_fields(k):
+                try:
+                    nums, end = read_private_fields(got)
+                    why = same_numbers(nums, k) or ("%d octets after the key" % (len(got) - end))
+                except Exception as e:
+                    why = repr(e)
+                return "privateBlob() is not the agent-protocol private key: " + why
+            return None
+        if kind == "blob-in":
+            got = Key.fromString(ref_private_fields(k), type="private_blob")
+            return describe_key(got, k, True)
+        if kind in ("v1-out", "default-out", "v1-out-wrong"):
+            given, octets = PASSES[case[2]]
+            if kind == "default-out":
+                if k["kind"] != "ed25519":
+                    raise Bounded.Skip()      # the default of the other types is PEM: see pem-out
+                text, comment = key.toString("openssh"), None
+            elif kind == "v1-out-wrong":
+                text, comment = key.toString("openssh", subtype="v1", passphrase=given), None
+                return (_must_fail(text, passphrase=b"Secret") or _must_fail(text)
+                        or _must_fail(text, passphrase=b""))
+            else:
+                comment = V1_COMMENTS[case[3]]
+                kw = {} if comment is None else dict(comment=comment)
+                if given is not None:
+                    kw["passphrase"] = given
+                text = key.toString("openssh", subtype="v1", **kw)
+            try:
+                nums, c, pub, encrypted = read_v1(text, octets)
+            except Exception as e:
+                return "not a well-formed openssh-key-v1 file for this passphrase: %r" % (e,)
+            what = same_numbers(nums, k)
+            if what:
+                return "the file holds other numbers: " + what
+            if c != (comment or b"") or pub != ref_blob(k) or encrypted != (octets is not None):
+                return "comment %r, public blob right: %r, encrypted: %r" % (c, pub == ref_blob(k), encrypted)
+            got = Key.fromString(text, passphrase=given) if given is not None else Key.fromString(text)
+            what = describe_key(got, k, True)
+            if what:
+                return "fromString(toString()): " + what
+            if not (got == key):
+                return "fromString(toString()) != key"
+            if octets is not None:
+                what = describe_key(Key.fromString(text, passphrase=octets), k, True)     # the normalised octets
+                return what or _must_fail(text)
+            return None
+        if kind == "v1-in":
+            given, octets = PASSES[case[2]]
+            cipher, comment, width = case[3], V1_COMMENTS[case[4]] or b"", case[5]
+            text = write_v1(k, octets, comment, cipher or b"aes256-ctr", width=width)
+            got = Key.fromString(text, passphrase=given) if given is not None else Key.fromString(text)
+            what = describe_key(got, k, True)
+            if what:
+                return "reading an openssh-key-v1 file: " + what
+            what = describe_key(Key.fromString(text, type="private_openssh", passphrase=given), k, True)
+            if what:
+                return "typed read: " + what
+            if octets is not None:
+                return _must_fail(text, passphrase=octets + b"x") or _must_fail(text) or _must_fail(text, passphrase=b"")
+            return None
+        if kind == "pem-out":
+            given, octets = PASSES[case[2]]
+            kw = {} if case[3] is None else dict(subtype=case[3])
+            if given is not None:
+                kw["passphrase"] = given
+            text = key.toString("openssh", **kw)
+            try:
+                nums, encrypted = read_pem(text, octets)
+            except Exception as e:
+                return "not a traditional PEM key for this passphrase: %r" % (e,)
+            what = same_numbers(nums, k)
+            if what:
+                return "the PEM holds other numbers: " + what
+            if encrypted != (octets is not None):
+                return "encrypted: %r" % encrypted
+            got = Key.fromString(text, passphrase=given) if given is not None else Key.fromString(text)
+            what = describe_key(got, k, True)
+            if what:
+                return "fromString(toString()): " + what
+            if not (got == key):
+                return "fromString(toString()) != key"
+            if octets is not None:
+                return (describe_key(Key.fromString(text, passphrase=octets), k, True)
+                        or _must_fail(text, passphrase=octets + b"x") or _must_fail(text))
+            return None
+        if kind == "pem-in":
+            given, octets = PASSES[case[2]]
+            text = write_pem(k, octets, case[3] or b"AES-128-CBC")
+            got = Key.fromString(text, passphrase=given) if given is not None else Key.fromString(text)
+            what = describe_key(got, k, True)
+            if what:
+                return "reading a PEM key: " + what
+            if octets is not None:
+                return _must_fail(text, passphrase=octets + b"x") or _must_fail(text)
+            return None
+        if kind == "agent-out":
+            got = key.toString("agentv3")
+            if got != ref_agentv3(k):
+                return "agent v3 octets differ from the documented layout"
+            return describe_key(Key.fromString(got), k, True)
+        if kind == "agent-in":
+            return (describe_key(Key.fromString(ref_agentv3(k)), k, True)
+                    or describe_key(Key.fromString(ref_agentv3(k), type="agentv3"), k, True))
+        if kind in ("lsh-private-out", "lsh-public-out"):
+            private = kind == "lsh-private-out"
+            src = key if private else make_key(k, False)
+            text = src.toString("lsh")
+            try:
+                fields, head, alg = read_lsh(text)
+            except Exception as e:
+                return "not an lsh key: %r" % (e,)
+            want_head = b"private-key" if private else b"public-key"
+            names = {"rsa": "ned" if private else "ne", "dsa": "pqgyx" if private else "pqgy"}[k["kind"]]
+            if head != want_head or any(fields.get(n) != k[n] for n in names):
+                return "lsh expression %r %r does not carry the key's %s" % (head, alg, names)
+            if private and k["kind"] == "rsa" and {fields.get("p"), fields.get("q")} != {k["p"], k["q"]}:
+                return "lsh expression does not carry the primes"
+            got = Key.fromString(text)
+            what = describe_key(got, k, private)
+            if what and private and _either_prime_order(got, k) is None:
+                return ("fromString(toString('lsh')) != key: the key read back has p and q exchanged (the original "
+                        "has p %s q), so data(), == and toString() of the two differ" % (">" if k["p"] > k["q"] else "<"))
+            if what:
+                return "fromString(toString('lsh')): " + what
+            return None if got == src else "fromString(toString('lsh')) != key"
+        if kind in ("lsh-private-in", "lsh-public-in"):
+            private = kind == "lsh-private-in"
+            got = Key.fromString(write_lsh(k, private))
+            # an lsh file does not say which prime is p: either naming is the same key
+            return _either_prime_order(got, k) if private else describe_key(got, k, False)
+        return "unknown case"
+
+
+SIGN_ALGORITHMS = {"rsa": [b"ssh-rsa", b"rsa-sha2-256", b"rsa-sha2-512"]}     # RFC 4253 6.6, RFC 8332 3
+MESSAGES = [b"", b"abc", bytes(i * 7 & 255 for i in range(3000))]
+ROUTES = ["v1", "pem", "private_blob", "blob", "line"]
+
+
+def stranger_of(kid):
+    """another pool key of the same type (and curve) with a different public key"""
+    k = numbers(kid)
+    for other in ALL_KEYS:
+        o = numbers(other)
+        if o["kind"] == k["kind"] and o.get("curve") == k.get("curve") and ref_blob(o) != ref_blob(k) \
+                and (k["kind"] != "rsa" or o["n"].bit_length() <= 1024):
+            return o
+    raise KeyError(kid)
+
+
+class KeySignVerify(Bounded):
+    prop = "C37"
+    title = ("a key and the key parsed back from its serialization are the same key in use: each verifies what the "
+             "other signs (private and public halves), both reject a changed message, a different key rejects both")
+    scope = ("pool keys x signature algorithms of the type (ssh-rsa, rsa-sha2-256, rsa-sha2-512 / ssh-dss / "
+             "ecdsa-sha2-* / ssh-ed25519, and the default) x messages {empty, 'abc', 3000 octets} x route of the "
+             "round trip {openssh-key-v1, PEM, privateBlob, public blob, public line}; quick tier: 12 keys, the "
+             "3000-octet message only on the v1 route")
+    functions = ["Key.sign", "Key.verify", "Key.toString", "Key.fromString", "Key.public", "Key.blob",
+                 "Key.privateBlob"]
+
+    def cases(self, tier, rng):
+        quick = tier == "quick"
+        pool = ["rsa1024", "rsa1024-p<q", "rsa2048", "rsa1023", "dsa", "dsa-y-short", "ec256", "ec256-x-short",
+                "ec384", "ec521", "ec521-y-short", "ed25519"] if quick else ALL_KEYS
+        for kid in pool:
+            kind = numbers(kid)["kind"]
+            algos = list(range(len(SIGN_ALGORITHMS.get(kind, [None])))) + [-1]
+            for a in algos:
+                for route in ROUTES:
+                    if route == "pem" and kind == "ed25519":
+                        continue
+                    for mi in range(len(MESSAGES)):
+                        if quick and mi == 2 and route != "v1":
+                            continue
+                        yield (kid, a, route, mi)
+
+    def check(self, case):
+        kid, a, route, mi = case
+        k = numbers(kid)
+        key, msg = make_key(k, True), MESSAGES[mi]
+        name = ssh_type(k) if a == -1 or k["kind"] not in SIGN_ALGORITHMS else SIGN_ALGORITHMS[k["kind"]][a]
+        sign = (lambda kk, m: kk.sign(m)) if a == -1 else (lambda kk, m: kk.sign(m, name))
+        if route == "v1":
+            other = Key.fromString(key.toString("openssh", subtype="v1"))
+        elif route == "pem":
+            other = Key.fromString(key.toString("openssh", subtype="PEM"))
+        elif route == "private_blob":
+            other = Key.fromString(key.privateBlob(), type="private_blob")
+        elif route == "blob":
+            other = Key.fromString(key.blob())
+        else:
+            other = Key.fromString(key.public().toString("openssh", comment=b"c"))
+        try:
+            sig = sign(key, msg)
+        except Exception as e:
+            if type(e).__name__ == "UnsupportedAlgorithm":
+                raise Bounded.Skip()     # the crypto library refuses the digest (e.g. SHA-1 switched off)
+            raise
+        try:
+            algo, _ = r_string(sig, 0)
+        except Short:
+            return "signature is not 'string algorithm, ...': %r" % sig[:20]
+        if algo != name:
+            return "signature names algorithm %r, asked for %r" % (algo, name)
+        verifiers = [("key", key), ("key.public()", key.public()), ("parsed", other), ("parsed.public()", other.public())]
+        sigs = [("key", sig)]
+        if not other.isPublic():
+            sigs.append(("parsed", sign(other, msg)))
+        stranger = make_key(stranger_of(kid), True)
+        for sname, s in sigs:
+            for vname, v in verifiers:
+                if v.verify(s, msg) is not True:
+                    return "%s does not verify the signature made by %s (%s)" % (vname, sname, name.decode())
+                if v.verify(s, msg + b"x") is not False or (msg and v.verify(s, msg[:-1]) is not False):
+                    return "%s accepts the signature made by %s for a different message" % (vname, sname)
+            how, got = _call(stranger.verify, s, msg)
+            if how == "ok" and got is not False:
+                return "a different key accepts the signature made by %s" % sname
+        return None
+
+
+BOUNDED = [WirePrimitives, WireTruncation, KeyPublic, KeyPrivate, KeySignVerify]
